@@ -247,6 +247,8 @@ pub mod context;
 pub mod server;
 pub mod transport;
 pub(crate) mod util;
+#[cfg(feature = "verif-hooks")]
+pub mod verif_hooks;
 
 pub use crate::transport::sealed::Transport;
 
